@@ -206,7 +206,53 @@ def locality_of_definition(F, fn, g):
     return has_mod and from_find, "receiver derives from: %s" % sorted(c for c in calls if "module" in c.lower() or "find_def" in c or "package" in c.lower())
 
 
+def name_tokens_are_ascii(F, res, rule="V15"):
+    """V15: rename decides "a valid identifier of the right class" by lexing the new name: one IDENT / U_IDENT token and nothing else.
+    What those tokens are is written in the regex attributes of SyntaxKind, and logos compiles them in Unicode mode: `\\d` is every
+    decimal digit of Unicode (`area\u0663`, `v\uff11`), `\\w` every letter, a negated class everything else. Gleam's names are
+    ASCII: the patterns of the name tokens (and of the numbers, which the same argument holds for) are built from literal ASCII
+    characters and ASCII ranges only - no Perl class (\\d \\w \\s and their negations), no \\p{..}, no negated bracket class, no
+    dot, no non-ASCII literal, no case-insensitive flag."""
+    import re as _re
+    va = [x for x in F.units["syntax-rlib"].get("variant_attrs", []) if x[0] == "SyntaxKind"]
+    if not va:
+        res.anchor_missing(rule, "attributes of SyntaxKind variants")
+        return
+    NAMES = ("IDENT", "U_IDENT", "DISCARD_IDENT", "INTEGER", "FLOAT")
+    n, bad = 0, []
+    for _e, v, txt in va:
+        if v not in NAMES or not txt.lstrip("#[").startswith("regex"):
+            continue
+        m = _re.search(r'regex\s*[\(\[]\s*(r#*"(.*?)"#*|"((?:[^"\\]|\\.)*)")', txt, _re.S)
+        if not m:
+            bad.append("%s: pattern not found in %s" % (v, txt))
+            continue
+        n += 1
+        raw = m.group(1).startswith("r")
+        pat = m.group(2) if raw else m.group(3)
+        if not raw:
+            pat = pat.replace("\\\\", "\\")      # a normal string literal spells a backslash twice
+        why = []
+        if _re.search(r"\\[dDwWsSpPbB]", pat):
+            why.append("a Perl / Unicode class (%s)" % _re.search(r"\\[dDwWsSpPbB](\{[^}]*\})?", pat).group(0))
+        if "[^" in pat:
+            why.append("a negated class")
+        if _re.search(r"(?<!\\)\.", _re.sub(r"\[[^\]]*\]", "", pat)):
+            why.append("a dot outside a bracket class")
+        if "(?i" in pat or "ignore" in txt:
+            why.append("a case-insensitive match")
+        if any(ord(ch) > 127 for ch in pat) or _re.search(r"\\[ux]\{?[0-9a-fA-F]{3,}", pat):
+            why.append("a non-ASCII literal")
+        if why:
+            bad.append("%s %r: %s" % (v, pat, ", ".join(why)))
+    res.floor("regex attributes of the name and number tokens", n, 5)
+    res.ob(rule, "name-tokens/ascii-only", "the patterns of IDENT, U_IDENT, DISCARD_IDENT (and of the number tokens) match ASCII characters only: a new name with a "
+           "non-ASCII digit or letter is not one identifier token", not bad, where="crates/syntax/src/kind.rs",
+           how="%d patterns, literal ASCII characters and ranges only" % n if not bad else "; ".join(bad))
+
+
 def run(F, res, tier):
+    name_tokens_are_ascii(F, res)
     rename = F.fn(RENAME)
     prepare = F.fn(PREPARE)
     find_def = F.fn(FIND_DEF)
